@@ -344,4 +344,30 @@ CHECKS["C13"] = dict(
     thorough=dict(workers=16, cases=4000, maxsize=44),
 )
 
+CHECKS["C11"] = dict(
+    harness="C11_effect", sources=["props/C11_effect.cc", "shim/shim.c", "pki/pki.cc", "stubs/ares_stub.c"], variant="asan",
+    level="exploration", engine="rapidcheck + shim (delayed TCP handshake, descriptor identification) + resolver stub + kernel read-back",
+    technique="model-based property testing: generated schedules of attribute writes over a socket's life, "
+              "model = latest accepted value per attribute, compared with xcm_attr_get and with "
+              "getsockopt()/getsockname() on the connection's kernel descriptor; inheritance and "
+              "creation-only rules on server / accepted sockets",
+    level_text="Writes of tcp.keepalive, tcp.keepalive_time/interval/count, tcp.user_timeout (admissible and "
+               "out-of-range values), xcm.service, xcm.local_addr, dns.*, tcp.connect_timeout, tls.check_time are "
+               "placed in the creation map, while the name is being resolved, while XCM still regards the TCP "
+               "handshake as pending (0-11 delayed status probes), on the established connection and after the "
+               "peer closed, on tcp/tls/btcp/btls/utls connecting sockets; after establishment SO_KEEPALIVE, "
+               "TCP_KEEPIDLE/INTVL/CNT, TCP_USER_TIMEOUT and the source address are read back from the kernel "
+               "descriptor. xcm.blocking=true with an unflushed message must flush like xcm_set_blocking. "
+               "xcm_accept_a maps (TCP options, tls.check_time override) against server sockets with generated "
+               "blocking mode / tls.check_time / tls.auth; xcm.service x every transport at creation. Sampled.",
+    level_note="The kernel is trusted to report what was set. Blocking TLS accept is skipped (single-threaded).",
+    rule=("case = one of: life of a connecting socket (70%), accept/inheritance (20%), service rules (10%). "
+          "Non-trivial = a write was placed in the resolving or TCP-connecting phase, xcm.blocking was set with "
+          "pending work, an accepted socket was checked, or a creation map / service combination was refused."),
+    assumptions=["creation-only attributes are those the manual marks 'writable only at socket creation' / 'at the "
+                 "time of the xcm_connect_a() call'"],
+    quick=dict(workers=16, cases=600, maxsize=40),
+    thorough=dict(workers=16, cases=20000, maxsize=40),
+)
+
 NOT_APPLICABLE = []
